@@ -58,6 +58,11 @@ extern int mpt_parse_data(const MPT_STRUCT(parser_format) *fmt, MPT_STRUCT(parse
 		last = curr;
 	}
 	
+	/* read error or failed save is no end of input */
+	if (curr < 0 && curr != -2) {
+		parse->curr = MPT_PARSEFLAG(Data);
+		return MPT_ERROR(BadArgument);
+	}
 	if (fmt->oend && curr != fmt->oend) {
 		parse->curr = MPT_PARSEFLAG(Data);
 		return MPT_ERROR(BadValue);
